@@ -141,6 +141,11 @@ func BuildIndex(outfile string, idx oci.SignedImageIndex, tags []string) (name.D
 	}
 	for _, m := range manifest.Manifests {
 		arch := m.Platform.Architecture
+		if m.Platform.Variant != "" {
+			// arm/v6 and arm/v7 share Platform.Architecture; without the variant
+			// the later image replaces the earlier one under the same tag
+			arch += "/" + m.Platform.Variant
+		}
 		img, err := idx.SignedImage(m.Digest)
 		if err != nil {
 			return name.Digest{}, fmt.Errorf("failed to get image for manifest %s: %w", m.Digest, err)
